@@ -637,6 +637,10 @@ theorem c11_event_shape :
     Gen.C11.goWormholeMessageFieldSize = wormholeMessageFieldSize ∧
     Gen.C11.emitInOrder = true ∧ Gen.C11.emitTyped = true ∧ Gen.C11.clLowerBoundOnly = true := by decide
 
+/-- `WormholeMessage` is declared at the position among the governance contract's events that the watcher selects
+(`WormholeMessageEventIndex` in utils.go): a node reports events by that index. -/
+theorem c11_event_index : Gen.C11.eventIndex = Gen.C11.goWormholeMessageEventIndex := by decide
+
 /-- running end offsets of a width list -/
 def ends : List Nat → Nat → List Nat
   | [], _ => []
